@@ -252,6 +252,9 @@ func c11AttrClasses() []c11Attr {
 	for _, v := range []uint16{128, 192, 256} {
 		out = append(out, c11Attr{Class: "tlv", Type: 14, Var: model.Bytes{byte(v >> 8), byte(v)}})
 	}
+	for _, n := range []int{16, 24, 32, 128, 192, 256} {
+		out = append(out, c11Attr{Class: "tlv", Type: 14, Var: make(model.Bytes, n)})
+	}
 	out = append(out, c11Attr{Class: "tlv", Type: 14, Var: model.Bytes{128}}, c11Attr{Class: "tlv", Type: 15, Var: model.Bytes{1, 0}}, c11Attr{Class: "tlv", Type: 142, Var: model.Bytes{0, 128}})
 	return out
 }
@@ -272,6 +275,19 @@ var c11Table = probe.Define("C11", "table", func(t *rapid.T) c11In { panic("enum
 		}
 	}
 	return probe.Outcome{NonTrivial: adv || len(in.Attrs) > 1}
+})
+
+var c11KeyLen = probe.Define("C11", "keylength", func(t *rapid.T) c11In { panic("enumerated") }, func(in c11In) probe.Outcome {
+	for _, id := range in.IDs {
+		for _, a := range in.Attrs {
+			for _, wire := range []bool{false, true} {
+				if err := c11CheckDecode(id, a, wire); err != nil {
+					return probe.Fail("%v", err)
+				}
+			}
+		}
+	}
+	return probe.Outcome{NonTrivial: true}
 })
 
 // --- advertised algorithms and proposals ---
@@ -560,6 +576,21 @@ func TestC11(t *testing.T) {
 	}
 	if c.Thorough() && c.Failures() == 0 {
 		c.Exhaustive("table")
+	}
+	// every value of the key-length attribute for the AES-CBC identifier (wrap-arounds, non-multiples of 8 ...), direct and via the wire
+	if c.Shard == 0 {
+		for v := 0; v < 65536; v += 64 {
+			var attrs []c11Attr
+			for k := 0; k < 64; k++ {
+				attrs = append(attrs, c11Attr{Class: "tv", Type: 14, Value: uint16(v + k)})
+			}
+			if !c11KeyLen.Eval(c, c11In{IDs: []uint16{12}, Attrs: attrs}) && c.Failures() > 5 {
+				break
+			}
+		}
+		if c.Failures() == 0 {
+			c.Exhaustive("keylength")
+		}
 	}
 	c11Decode.Run(c, t, c.N(300, 2000))
 	c11Bad.Run(c, t, c.N(1500, 10000))
